@@ -261,6 +261,15 @@ def inline(fn, resolver: Callable[[ast.Call], Optional[Tuple[ast.FunctionDef, Op
     return _set_parents(new)
 
 
+def _pure_operand(e) -> bool:
+    """evaluating it has no effect and cannot be affected by a call evaluated after it"""
+    if isinstance(e, (ast.Name, ast.Constant)):
+        return True
+    if isinstance(e, ast.Attribute):
+        return _pure_operand(e.value)
+    return False
+
+
 def _hoist_spine_call(st, eligible):
     """if the first thing `st.value` evaluates (after plain names) is an inlinable multi-statement helper call that is
     not the whole value, replace it by a fresh temp and return the `temp = call` statement to put in front"""
@@ -274,7 +283,9 @@ def _hoist_spine_call(st, eligible):
                 setattr(parent, fld, ast.copy_location(ast.Name(id=tmp, ctx=ast.Load()), node)) if not isinstance(fld, tuple) else getattr(parent, fld[0]).__setitem__(fld[1], ast.copy_location(ast.Name(id=tmp, ctx=ast.Load()), node))
                 return ast.copy_location(ast.Assign(targets=[ast.Name(id=tmp, ctx=ast.Store())], value=node), st)
         top = False
-        if isinstance(node, (ast.Attribute, ast.Subscript, ast.Starred)):
+        if isinstance(node, ast.BinOp) and _pure_operand(node.left):
+            parent, fld, node = node, "right", node.right
+        elif isinstance(node, (ast.Attribute, ast.Subscript, ast.Starred)):
             parent, fld, node = node, "value", node.value
         elif isinstance(node, ast.Call):
             f = node.func
@@ -617,9 +628,26 @@ def expand_starstar_dicts(fn):
     return _set_parents(fn)
 
 
+def getattr_consts_to_attributes(fn):
+    """in place: getattr(x, '<identifier>') (two arguments) -> x.<identifier>"""
+
+    class T(ast.NodeTransformer):
+        def visit_Call(self, node):
+            self.generic_visit(node)
+            if isinstance(node.func, ast.Name) and node.func.id == "getattr" and len(node.args) == 2 and not node.keywords \
+                    and isinstance(node.args[1], ast.Constant) and isinstance(node.args[1].value, str) and node.args[1].value.isidentifier():
+                return ast.copy_location(ast.Attribute(value=node.args[0], attr=node.args[1].value, ctx=ast.Load()), node)
+            return node
+
+    T().visit(fn)
+    ast.fix_missing_locations(fn)
+    return _set_parents(fn)
+
+
 def canonical(fn, resolver=None, keep=None, depth=2):
     new = inline(fn, resolver, depth, keep) if resolver is not None else copy_fn(fn)
     new = loops_to_comprehensions(new)
     new = ifexp_assignments_to_if(new)
     new = formats_to_fstrings(new)
+    new = getattr_consts_to_attributes(new)
     return expand_starstar_dicts(new)
